@@ -1038,3 +1038,144 @@ Proof.
            ++ rewrite nth_overflow by lia. auto.
     + eexists. eexists. split. reflexivity. split; intros C; [discriminate | rewrite OF; reflexivity].
 Qed.
+
+(* ---- SDreaddata ------------------------------------------------------------------------------------------ *)
+Lemma valid_plan_facts : forall m start edges,
+  okvar m -> (0 < length (m_shape m))%nat ->
+  length start = length (m_shape m) -> length edges = length (m_shape m) ->
+  Forall (fun c => 1 <= c) edges -> all4 dim_in start (ones start) edges (m_shape m) = true ->
+  any2 coordck_bad start (m_shape m) = false /\
+  exists ps n, vario_plan m start edges = Some (ps, n) /\ 1 <= n /\
+    Forall (fun p => any2 coordck_bad p (m_shape m) = false /\ length p = length (m_shape m) /\
+                     0 <= lin (m_shape m) p /\ lin (m_shape m) p + n <= prod (m_shape m)) ps /\
+    flat_map (fun p => seq (Z.to_nat (lin (m_shape m) p)) (Z.to_nat n)) ps =
+      map (idx (m_shape m)) (slab_cells start (ones start) edges).
+Proof.
+  intros m start edges Hok Hn Hs He Hf Hin.
+  pose proof Hok as [Hr [Hnf [Hesz [Hsh Hst]]]].
+  pose proof (valid_start_ok start edges (m_shape m) ltac:(lia) ltac:(lia) Hf Hin) as B.
+  split; auto.
+  destruct (valid_plan_some m start edges Hr Hs He Hf Hin) as [ps [n P]].
+  exists ps, n. split; auto.
+  pose proof (any2_false_nonneg _ _ Hs B) as Hnn.
+  assert (Hb : ((if is_recvar m then 1 else 0) < length (m_shape m))%nat) by (rewrite Hr; lia).
+  destruct (plan_decomp _ _ _ _ _ Hs He Hb Hnn P)
+    as [pre [dk [post [spre [sk [epre [ek [S1 [S2 [S3 [L2 [L3 [Hek [Pp Pn]]]]]]]]]]]]]].
+  pose proof (shape_nonneg _ Hsh) as Hsh0.
+  assert (Hpost : Forall (fun d => 0 <= d) post).
+  { rewrite S1 in Hsh0. apply Forall_app in Hsh0. destruct Hsh0 as [_ F]. inversion F; auto. }
+  assert (Hpost1 : Forall (fun d => 1 <= d) post).
+  { rewrite S1 in Hsh. apply Forall_app in Hsh. destruct Hsh as [_ F]. inversion F; auto. }
+  assert (Hepre : Forall (fun c => 1 <= c) epre /\ 1 <= ek).
+  { rewrite S3 in Hf. apply Forall_app in Hf. destruct Hf as [F1 F2]. inversion F2; auto. }
+  destruct Hepre as [Hepre Hek1].
+  pose proof (prod_pos _ Hpost1) as PP.
+  assert (N1 : 1 <= n) by (subst n; nia).
+  assert (Hlead : all4 dim_in spre (ones spre) epre pre = true).
+  { rewrite S1, S2, S3 in Hin.
+    replace (ones (spre ++ sk :: zeros post)) with (ones spre ++ 1 :: ones post) in Hin
+      by (unfold ones, zeros; rewrite map_app; cbn [map]; rewrite map_map; reflexivity).
+    rewrite all4_app in Hin by (unfold ones; rewrite ?map_length; lia).
+    apply andb_prop in Hin. tauto. }
+  assert (Hacc : forall p', In p' (odometer spre epre) ->
+            any2 coordck_bad (p' ++ sk :: zeros post) (m_shape m) = false).
+  { intros p' Hp'. rewrite S1. rewrite any2_app by (rewrite (odometer_len spre epre p'); auto; lia).
+    rewrite odometer_slab in Hp'.
+    rewrite (slab_in_bounds spre (ones spre) epre pre) by
+      (auto; try lia; unfold ones; try apply map_length; clear; induction spre; simpl; constructor; auto; lia).
+    rewrite S1, S2 in B. rewrite any2_app in B by lia. apply orb_false_elim in B. tauto. }
+  pose proof (plan_bounds m start edges ps n Hok Hn Hs He B P) as [Hn0 Hbd].
+  split; auto. split.
+  - rewrite Forall_forall. intros p Hp. pose proof Hp as Hp2. rewrite Pp in Hp2.
+    apply in_map_iff in Hp2. destruct Hp2 as [p' [<- Hp']].
+    pose proof (Hacc p' Hp') as A. destruct (Hbd _ Hp A) as [A0 [A1 A2]]. repeat split; auto.
+  - rewrite Pp, flat_map_map'.
+    erewrite flat_map_ext'.
+    2:{ intros p' Hp'. rewrite <- map_to_nat_zrange.
+        2:{ pose proof (Hacc p' Hp') as A.
+            assert (In (p' ++ sk :: zeros post) ps)
+              by (rewrite Pp; apply (in_map (fun p => p ++ sk :: zeros post)); auto).
+            destruct (Hbd _ H A) as [_ [A1 _]]. exact A1. }
+        reflexivity. }
+    rewrite <- map_flat_map. rewrite S1. rewrite Pn.
+    rewrite vario_blocks_rowmajor_lemma by (auto; lia).
+    rewrite map_map. rewrite <- S2, <- S3. reflexivity.
+Qed.
+
+Definition out_agree (c x : cell) : Prop := match c with Val v => x = Val v | _ => True end.
+
+Lemma base_same : forall m m', m_store m' = m_store m -> same_meta m m' -> base m' = base m.
+Proof.
+  intros m m' E S. unfold base, fullfill. rewrite E, (fill_of_meta _ _ S), (Ncells_meta _ _ S). reflexivity.
+Qed.
+
+Lemma sim_state_same : forall a m m', sim a m -> m_store m' = m_store m -> same_meta m m' -> sim a m'.
+Proof.
+  intros a m m' S E M. destruct S as [Sshape Sfix Sfm Suf Sdf Sok Srank Slen Scells Sfresh Sempty].
+  pose proof M as [M1 [M2 [M3 [M4 [M5 M6]]]]].
+  assert (F1 : a_shape a = m_shape m') by congruence.
+  assert (F4 : a_userfill a = m_fillattr m') by congruence.
+  assert (F5 : a_dfill a = m_dfill m') by congruence.
+  assert (F6 : okvar m').
+  { destruct Sok as [Hr [Hnf [He [Hsh Hst]]]]. unfold okvar. rewrite (is_recvar_shape _ _ M1), M5, M2, M1, E.
+    rewrite (Ncells_meta _ _ M). repeat split; auto. }
+  assert (F7 : (0 < length (m_shape m'))%nat) by (rewrite M1; auto).
+  assert (F8 : length (a_cells a) = Ncells m') by (rewrite (Ncells_meta _ _ M); auto).
+  assert (F9 : forall i, agree (fill_of m') (nth i (a_cells a) Undef) (nth i (base m') Undef)).
+  { intros i. rewrite (fill_of_meta _ _ M), (base_same _ _ E M). apply Scells. }
+  assert (F10 : a_touched a = false -> m_store m' = []) by (rewrite E; auto).
+  assert (F11 : m_store m' = [] -> Forall (fun c => c = Unwr \/ c = Undef) (a_cells a)) by (rewrite E; auto).
+  constructor; assumption.
+Qed.
+
+Lemma sim_read : forall a m start stride count,
+  sim a m -> length start = length (m_shape m) -> length count = length (m_shape m) ->
+  sim a (fst (sd_read m false start stride count)) /\
+  exists rc cells tr, snd (sd_read m false start stride count) = MRead rc cells tr /\
+    ret_ok (fst (s_read a start (ones start) count)) rc /\
+    (fst (s_read a start (ones start) count) = ROk ->
+     Forall2 out_agree (snd (s_read a start (ones start) count)) cells).
+Proof.
+  intros a m start stride count S Hs Hc.
+  pose proof S as [Sshape Sfix Sfm Suf Sdf Sok Srank Slen Scells Sfresh Sempty].
+  pose proof Sok as [Hr [Hnf [He [Hsh Hst]]]].
+  unfold sd_read. cbn [andb].
+  set (acc := mkAcc m [] [] []).
+  pose proof (vario_read_state start count acc Hr Srank) as RS. cbv zeta in RS. cbn [acc acc_m] in RS. fold acc in RS.
+  destruct RS as [RS1 RS2].
+  split.
+  { destruct (vario false start count acc) as [ok a']. cbn [fst snd] in *. apply (sim_state_same a m); auto. }
+  unfold s_read, well_formed. rewrite forallb_ones_true, andb_true_r.
+  unfold inner_in. rewrite Sfix, Sshape. cbn [andb].
+  destruct (forallb (fun c => 1 <=? c) count) eqn:WF; cbn [negb].
+  2:{ destruct (vario false start count acc) as [ok a']. eexists. eexists. eexists. split. reflexivity.
+      cbn [fst snd]. split. split; intros C; discriminate. intros C; discriminate. }
+  assert (Hf : Forall (fun c => 1 <= c) count).
+  { apply Forall_forall. intros x Hx. rewrite forallb_forall in WF. apply Z.leb_le. auto. }
+  destruct (all4 dim_in start (ones start) count (m_shape m)) eqn:IN; cbn [negb fst snd].
+  2:{ pose proof (vario_oob_fails false acc start count Hr Srank Hs Hc Hf IN) as OF.
+      destruct (vario false start count acc) as [ok a']. cbn [fst] in OF. subst ok.
+      eexists. eexists. eexists. split. reflexivity. split. split; intros C; [discriminate | reflexivity].
+      intros C; discriminate. }
+  (* valid read *)
+  destruct (valid_plan_facts m start count Sok Srank Hs Hc Hf IN) as [B [ps [n [P [N1 [FA IDX]]]]]].
+  assert (V : exists a', vario false start count acc = (true, a') /\
+              acc_cells a' = map (fun j => nth j (base m) Undef) (map (idx (m_shape m)) (slab_cells start (ones start) count))).
+  { unfold vario, acc. cbn [acc_m acc_tr acc_cells acc_vals]. destruct (m_shape m) as [| d0 dr] eqn:Sh. simpl in Srank; lia.
+    rewrite <- Sh in *. rewrite coordck_fixed by auto. rewrite B.
+    cbn [acc_m acc_tr acc_cells acc_vals]. rewrite Hr. cbn [andb]. rewrite P.
+    replace (n =? 0) with false by (symmetry; apply Z.eqb_neq; lia).
+    destruct (loop_read n ps (mkAcc m ([] ++ []) [] []) Sok ltac:(lia) FA) as [L1 L2].
+    destruct (vario_loop false n ps (mkAcc m ([] ++ []) [] [])) as [ok a2]. cbn [fst snd] in L1, L2. subst ok.
+    cbn [acc_cells acc_m app] in L2. rewrite IDX in L2.
+    destruct (m_numrecs (acc_m a2) <? hd 0 start + hd 0 count);
+      (eexists; split; [reflexivity | cbn [acc_cells]; exact L2]). }
+  destruct V as [a' [EV EC]]. rewrite EV. cbn [fst snd].
+  eexists. eexists. eexists. split. reflexivity. split. split; intros C; [reflexivity | discriminate].
+  intros _. rewrite EC. rewrite map_map.
+  pose proof (fillval_fill_of a m Suf Sdf) as FV. clear IDX EC.
+  induction (slab_cells start (ones start) count) as [| c l IHl]; simpl; [constructor |]. constructor; [| exact IHl].
+  fold (idx (m_shape m) c).
+  pose proof (Scells (idx (m_shape m) c)) as Sc. unfold resolve. rewrite Sfm, FV.
+  destruct (nth (idx (m_shape m) c) (a_cells a) Undef); simpl in *; auto.
+Qed.
